@@ -138,6 +138,19 @@ let handle (toks : string list) : string =
        "ok receipt=" ^ render_receipt r.x_receipt ^ " pool=" ^ hex_of_n r.x_pool ^ " failed=" ^ b01 t.t_failed
        ^ " intrinsic=" ^ hex_of_n t.t_intrinsic ^ " gasleft=" ^ hex_of_n t.t_gas_left ^ " refund=" ^ hex_of_n t.t_refund
        ^ " state=" ^ dump_exact r.x_state es)
+  | ["txi"; num; coinbase; pool; cum; st; msg; gaslimit; time; difficulty; fuel] ->
+    (* the same transaction with the EVM of Evm/Interp.v inside instead of an oracle table (mainnet configuration);
+       code / storage fields of the state are content encodings (dg_c / sg_c) *)
+    let s0 = parse_state st in
+    (match apply_transaction_i (nat_of_int (int_of_string fuel)) (parse_cfg "b0") (n_of_string num) (n_of_string coinbase)
+             (z_of_string gaslimit) (z_of_string time) (z_of_string difficulty) s0 (n_of_string pool) (n_of_string cum) (parse_msg msg) with
+     | TxErr e -> "err " ^ err_name e
+     | TxPanic -> "panic"
+     | TxOk r ->
+       let t = r.x_tdb in
+       "ok receipt=" ^ render_receipt r.x_receipt ^ " pool=" ^ hex_of_n r.x_pool ^ " failed=" ^ b01 t.t_failed
+       ^ " intrinsic=" ^ hex_of_n t.t_intrinsic ^ " gasleft=" ^ hex_of_n t.t_gas_left ^ " refund=" ^ hex_of_n t.t_refund
+       ^ " state=" ^ dump_state r.x_state)
   | ["block"; cfg; dealloc; num; coinbase; gaslimit; gasused; st; txs; uncles; orcs] ->
     let txl = if txs = "-" then [] else List.map parse_msg (split_on ';' txs) in
     let table = Array.of_list (if orcs = "-" then [] else List.map parse_oracle (split_on ';' orcs)) in
